@@ -37,7 +37,9 @@ pub fn fresh_dir(tag: &str, case: &Value) -> PathBuf {
 pub fn rsca_text(groups: &[(String, Vec<String>, Vec<String>)], blank_between_rules: bool) -> String {
     let mut s = String::new();
     for (gi, (name, rules, desc)) in groups.iter().enumerate() {
-        s.push_str(&format!("@ {name}\n"));
+        // an untitled group that follows a group with a description needs no `@` line: a rule line after description lines opens a new group
+        let bare = name.is_empty() && gi > 0 && !groups[gi - 1].2.is_empty() && groups[gi - 1].2.iter().all(|d| !d.is_empty()) && !rules.is_empty() && (gi + rules.len()) % 2 == 0;
+        if !bare { s.push_str(&format!("@ {name}\n")); } else if s.ends_with("\n\n") { s.pop(); }
         for (i, r) in rules.iter().enumerate() { s.push_str(&format!("{}{r}\n", if (gi + i) % 2 == 0 { "    " } else { "\t" })); if blank_between_rules && i + 1 < rules.len() && (gi + i) % 3 == 0 { s.push_str("    \n"); } }
         for d in desc { s.push_str(&format!("# {d}\n")); }
         s.push('\n');
